@@ -336,10 +336,10 @@ def run(ctx: Ctx) -> int:
         jobs.append(("ac", wr, cl, w, 0.003))
     # gaps longer than the connection timeout (requestor) / well inside the network timeout (acceptor)
     slow_ac = [p for p in ac_pats if len(p[0]) == 3 and not p[1]]
-    for (wr, cl, w) in rng.sample(slow_ac, 6 if not thorough else 30):
+    for (wr, cl, w) in rng.sample(slow_ac, min(len(slow_ac), 6 if not thorough else 30)):
         jobs.append(("ac-slow", wr, cl, w, 0.7))
     slow_acc = [p for p in pats if len(p[0]) == 3 and not p[1]]
-    for (wr, cl, w) in rng.sample(slow_acc, 6 if not thorough else 30):
+    for (wr, cl, w) in rng.sample(slow_acc, min(len(slow_acc), 6 if not thorough else 30)):
         jobs.append(("acc-slow", wr, cl, w, 0.6))
     lab = AcceptorLab()
     obs, lock = [], threading.Lock()
